@@ -457,7 +457,7 @@ func init() {
 	Register(Spec[c30WalkIn]{
 		ID: "C30", Suite: "walk", CoqImports: []string{"Check.C30"},
 		CoqType: "Check.C30.desc_in", CoqRun: "Check.C30.run_walk",
-		Quick: 320, Thorough: 12000, Parallel: 8,
+		Quick: 320, Thorough: 4000, Parallel: 8,
 		Corpus: func() []c30WalkIn {
 			w := c30PlanBWitness()
 			return []c30WalkIn{
@@ -515,7 +515,7 @@ func init() {
 	Register(Spec[c30WalkIn]{
 		ID: "C30", Suite: "wild", CoqImports: []string{"Check.C30"},
 		CoqType: "Check.C30.desc_in", CoqRun: "Check.C30.run_walk",
-		Quick: 320, Thorough: 12000, Parallel: 8,
+		Quick: 320, Thorough: 4000, Parallel: 8,
 		Gen: func(r *Rand, i int) c30WalkIn {
 			return c30WalkIn{D: c30ShortenFP(c30GenWild(r)), ViaText: r.Chance(1, 3), Origin: "wild"}
 		},
@@ -532,7 +532,7 @@ func init() {
 	Register(Spec[c30RecvIn]{
 		ID: "C30", Suite: "recv", CoqImports: []string{"Check.C30"},
 		CoqType: "Z * Check.C30.desc_in * bool * bool", CoqRun: "Check.C30.run_recv",
-		Quick: 300, Thorough: 8000, Parallel: 8,
+		Quick: 300, Thorough: 3000, Parallel: 8,
 		Corpus: func() []c30RecvIn {
 			w := c30PlanBWitness()
 			out := []c30RecvIn{}
@@ -600,7 +600,7 @@ func init() {
 	Register(Spec[c30UndeclIn]{
 		ID: "C30", Suite: "undecl", CoqImports: []string{"Check.C30"},
 		CoqType: "Check.C30.media_in * bool * bool", CoqRun: "Check.C30.run_undecl",
-		Quick: 200, Thorough: 4000, Parallel: 8,
+		Quick: 200, Thorough: 2000, Parallel: 8,
 		Corpus: func() []c30UndeclIn {
 			return []c30UndeclIn{
 				{M: c30Media{Kind: "video", Attrs: []c30Attr{{"mid", "0"}, {"msid", "s t"}}}, Audio: true, Video: true},
